@@ -22,6 +22,8 @@ pub enum Ty {
     /// the `[f64; N]` inside a newtype-array struct such as `Affine`
     ArrayOf(String),
     Array(Box<Ty>, usize),
+    /// a parameterless closure bound by `let` (index into Tr::thunks); called with `name()`
+    Thunk(usize),
     Other(String),
     Unknown,
 }
@@ -48,6 +50,7 @@ impl Ty {
             Ty::Into(t) => format!("impl Into<{}>", t.show()),
             Ty::ArrayOf(n) => format!("{}.0", n),
             Ty::Array(t, n) => format!("[{}; {}]", t.show(), n),
+            Ty::Thunk(_) => "closure".into(),
             Ty::Other(s) => s.clone(),
             Ty::Unknown => "?".into(),
         }
@@ -118,6 +121,11 @@ pub struct FnInfo {
     pub bridge: Option<String>,
     /// the whole statement to prove instead of `Gen.f args = model args` ($G = the generated call, $i = parameters)
     pub stmt: Option<String>,
+    /// how the tie is established when not by plain equality ("simulation")
+    pub via: Option<String>,
+    /// translate the body of the function's top-level `loop { .. }` as one step: the result is
+    /// `Some r` for `return r` and `None` for falling off the end / `continue`
+    pub loop_body: bool,
     pub ret: Ty,
     pub self_ty: Option<Ty>,
     pub body: Body,
@@ -132,7 +140,9 @@ impl FnInfo {
             return self.ret.clone();
         }
         let mut parts = Vec::new();
-        if self.ret != Ty::Unit {
+        if self.loop_body {
+            parts.push(Ty::Opt(Box::new(self.ret.clone())));
+        } else if self.ret != Ty::Unit {
             parts.push(self.ret.clone());
         }
         for &i in &self.mut_params {
@@ -156,6 +166,8 @@ pub struct Ctx {
     pub consts: HashMap<String, String>,
     /// the value that stands for a panic (`unwrap()` of `None`, index out of range), per type, as in the hand models
     pub panic_defaults: HashMap<String, String>,
+    /// `X::default()` per type
+    pub defaults: HashMap<String, String>,
 }
 
 pub fn norm_tokens<T: quote::ToTokens>(t: &T) -> String {
@@ -214,6 +226,20 @@ impl Ctx {
                     if let syn::TypeParamBound::Trait(tb) = b {
                         if let Some(x) = self.into_bound(&tb.path, self_ty, output, g) {
                             return Ty::Into(Box::new(x));
+                        }
+                        // `impl Iterator<Item = X>` as an argument: the list of what it yields
+                        if let Some(last) = tb.path.segments.last() {
+                            if last.ident == "Iterator" || last.ident == "IntoIterator" {
+                                if let syn::PathArguments::AngleBracketed(ab) = &last.arguments {
+                                    for a in &ab.args {
+                                        if let syn::GenericArgument::AssocType(at) = a {
+                                            if at.ident == "Item" {
+                                                return Ty::List(Box::new(self.ty_of(&at.ty, self_ty, output, g)));
+                                            }
+                                        }
+                                    }
+                                }
+                            }
                         }
                     }
                 }
@@ -327,6 +353,7 @@ impl Ctx {
             Ty::Range => return Err("Range<f64> outside an argument position".into()),
             Ty::ArrayOf(n) => return Err(format!("bare coefficient array of {}", n)),
             Ty::Array(..) => return Err(format!("array type {}", t.show())),
+            Ty::Thunk(_) => return Err("closure type".into()),
             Ty::Other(s) => return Err(format!("type `{}` is outside the subset", s)),
             Ty::Unknown => return Err("type could not be inferred".into()),
         })
@@ -387,7 +414,15 @@ pub fn load(repo: &str, spec: &Value) -> Result<Ctx, String> {
         derived_eq: HashMap::new(),
         consts: HashMap::new(),
         panic_defaults: HashMap::new(),
+        defaults: HashMap::new(),
     };
+    if let Some(m) = spec.get("defaults").and_then(|x| x.as_object()) {
+        for (k, v) in m {
+            if let Some(s) = v.as_str() {
+                ctx.defaults.insert(k.clone(), s.to_string());
+            }
+        }
+    }
     if let Some(m) = spec.get("panic_defaults").and_then(|x| x.as_object()) {
         for (k, v) in m {
             if let Some(s) = v.as_str() {
@@ -616,6 +651,8 @@ pub fn load(repo: &str, spec: &Value) -> Result<Ctx, String> {
             call: jstr(fs, "call"),
             bridge: jstr(fs, "bridge"),
             stmt: jstr(fs, "stmt"),
+            via: jstr(fs, "via"),
+            loop_body: fs.get("loop_body").and_then(|x| x.as_bool()).unwrap_or(false),
             ret: Ty::Unknown,
             self_ty: None,
             body: Body::None,
